@@ -329,7 +329,12 @@ class UintField(Field):
             return self
         value = self.get_value(instance)
         if value is not None:
-            return self.val_base_type(value)
+            try:
+                return self.val_base_type(value)
+            except ValueError:
+                # A number the Enum / Flag type does not name (e.g. received from a newer peer):
+                # reading the field must not fail, hand out the plain number
+                return value
         else:
             return None
 
